@@ -102,6 +102,71 @@ impl KotoWrite for Sink {
     }
 }
 
+// stdin of every worker Koto: an in-memory buffer (never the worker's real stdin, which carries the
+// request protocol). `verif_stdin(text)` fills it; `read_line` hands out one line INCLUDING its line
+// end, exactly like BufRead::read_line, so `io.stdin.read_line()` exercises File::read_line's own
+// stripping of the line end on contents chosen by the script.
+thread_local! { static MEM_IN: RefCell<(String, usize)> = const { RefCell::new((String::new(), 0)) }; }
+
+#[derive(Clone, Debug, Default)]
+struct MemIn;
+impl KotoFile for MemIn {
+    fn id(&self) -> KString {
+        "_memin_".into()
+    }
+}
+impl KotoRead for MemIn {
+    fn read_line(&self) -> koto::runtime::Result<Option<String>> {
+        MEM_IN.with(|m| {
+            let mut m = m.borrow_mut();
+            let (text, pos) = (&m.0, m.1);
+            if pos >= text.len() {
+                return Ok(None);
+            }
+            let rest = &text[pos..];
+            let end = rest.find('\n').map(|i| i + 1).unwrap_or(rest.len());
+            let line = rest[..end].to_string();
+            m.1 = pos + end;
+            Ok(Some(line))
+        })
+    }
+    fn read_to_string(&self) -> koto::runtime::Result<String> {
+        MEM_IN.with(|m| {
+            let mut m = m.borrow_mut();
+            let r = m.0[m.1.min(m.0.len())..].to_string();
+            m.1 = m.0.len();
+            Ok(r)
+        })
+    }
+}
+impl KotoWrite for MemIn {}
+
+/// the scratch directory of this worker process (file-I/O cases only): `io-w<pid>` next to the
+/// worker's stderr file (the pool's scratch directory); in-process: `<tmp>/c06-scratch-<pid>/w<pid>`
+fn worker_scratch() -> std::path::PathBuf {
+    let pid = std::process::id();
+    match std::env::var("C06_ERRFILE").ok().and_then(|f| std::path::Path::new(&f).parent().map(|p| p.to_path_buf())).filter(|p| p.is_dir() && p != std::path::Path::new("/dev")) {
+        Some(dir) => dir.join(format!("io-w{}", pid)),
+        None => std::env::temp_dir().join(format!("c06-scratch-{}", pid)).join(format!("w{}", pid)),
+    }
+}
+
+fn clear_scratch() {
+    let dir = worker_scratch();
+    if let Ok(rd) = std::fs::read_dir(&dir) {
+        for e in rd.filter_map(|e| e.ok()) {
+            let p = e.path();
+            if p.is_dir() {
+                let _ = std::fs::remove_dir_all(&p);
+            } else {
+                let _ = std::fs::remove_file(&p);
+            }
+        }
+    }
+}
+
+const IO_MARK: &str = "#!io";
+
 const VM_LIMIT_MS: u64 = 400;
 
 fn new_koto() -> Koto {
@@ -126,6 +191,49 @@ fn new_koto() -> Koto {
     koto
 }
 
+/// the Koto instance for a file-I/O case (script text starts with `#!io`): the real `io` module, an
+/// in-memory stdin, and `verif_scratch` — the worker's own scratch directory, emptied before and
+/// after the case. The generators build every path they write to from `verif_scratch`.
+fn new_koto_io() -> Koto {
+    let koto = Koto::with_settings(
+        KotoSettings::default()
+            .with_stdin(MemIn)
+            .with_stdout(Sink)
+            .with_stderr(Sink)
+            .with_execution_limit(Duration::from_millis(VM_LIMIT_MS)),
+    );
+    koto.prelude().remove("os");
+    let dir = worker_scratch();
+    let _ = std::fs::create_dir_all(&dir);
+    clear_scratch();
+    MEM_IN.with(|m| *m.borrow_mut() = (String::new(), 0));
+    koto.prelude().insert("verif_scratch", KValue::Str(dir.to_string_lossy().to_string().into()));
+    // raw bytes into a scratch file (contents that are not UTF-8 cannot be written through File.write)
+    koto.prelude().add_fn("verif_write", |ctx| match ctx.args() {
+        [KValue::Str(path), KValue::List(bytes)] => {
+            let scratch = worker_scratch();
+            let p = std::path::Path::new(path.as_str());
+            if !p.starts_with(&scratch) {
+                return koto::runtime::runtime_error!("verif_write: outside the scratch directory");
+            }
+            let data: Vec<u8> = bytes.data().iter().map(|v| match v { KValue::Number(n) => i64::from(n) as u8, _ => b'?' }).collect();
+            match std::fs::write(p, data) {
+                Ok(()) => Ok(KValue::Null),
+                Err(e) => koto::runtime::runtime_error!("verif_write: {e}"),
+            }
+        }
+        _ => koto::runtime::runtime_error!("verif_write: |String, List|"),
+    });
+    koto.prelude().add_fn("verif_stdin", |ctx| match ctx.args() {
+        [KValue::Str(text)] => {
+            MEM_IN.with(|m| *m.borrow_mut() = (text.as_str().to_string(), 0));
+            Ok(KValue::Null)
+        }
+        _ => koto::runtime::runtime_error!("verif_stdin: |String|"),
+    });
+    koto
+}
+
 fn err_kind(e: &koto::Error, text: &str) -> &'static str {
     match e {
         koto::Error::CompileError { .. } => "compile",
@@ -142,7 +250,15 @@ fn err_kind(e: &koto::Error, text: &str) -> &'static str {
 /// run a script: compile, run, display the value (and pull a few items if it is an iterator) or
 /// display the error.
 fn handle_run(src: &str) -> Value {
-    let mut koto = new_koto();
+    let io_case = src.starts_with(IO_MARK);
+    let v = handle_run_with(src, if io_case { new_koto_io() } else { new_koto() });
+    if io_case {
+        clear_scratch();
+    }
+    v
+}
+
+fn handle_run_with(src: &str, mut koto: Koto) -> Value {
     let mut panics: Vec<PanicRec> = vec![];
     let r = guarded("run", || koto.compile_and_run(src));
     let mut out = json!({});
